@@ -129,7 +129,7 @@ func execMeasure(e *MeasureEv) {
 func driveMeasure(r *rand.Rand, w *writer, n int) {
 	kinds := []string{"area", "areapaths", "ispos", "pip", "pip", "bounds", "collinear", "collinear"}
 	for i := 0; i < n; i++ {
-		e := &MeasureEv{Ev: "Measure", Chk: []string{"C14"}, Kind: kinds[r.Intn(len(kinds))]}
+		e := &MeasureEv{Ev: "Measure", Chk: chkFor("C14"), Kind: kinds[r.Intn(len(kinds))]}
 		switch e.Kind {
 		case "area", "ispos", "bounds":
 			e.Path = magPath(r, r.Intn(8))
@@ -294,7 +294,7 @@ func driveTrim(r *rand.Rand, w *writer, n int) {
 		} else {
 			p = trimPath(r)
 		}
-		e := &TrimEv{Ev: "Trim", Chk: []string{"C15"}, Path: p, IsOpen: r.Intn(3) == 0}
+		e := &TrimEv{Ev: "Trim", Chk: chkFor("C15"), Path: p, IsOpen: r.Intn(3) == 0}
 		if e.Path == nil {
 			e.Path = Path{}
 		}
@@ -440,7 +440,7 @@ func driveSimplify(r *rand.Rand, w *writer, n int) {
 	epsList := [][2]int64{{0, 1}, {1, 2}, {1, 1}, {2, 1}, {7, 2}, {10, 1}, {1, 4}, {100, 1}}
 	for i := 0; i < n; i++ {
 		ep := epsList[r.Intn(len(epsList))]
-		e := &SimplifyEv{Ev: "Simplify", Chk: []string{"C16"}, Api: simplifyApis[r.Intn(4)],
+		e := &SimplifyEv{Ev: "Simplify", Chk: chkFor("C16"), Api: simplifyApis[r.Intn(4)],
 			Path: simplifyPathGen(r), EpsN: ep[0], EpsD: ep[1], Closed: r.Intn(2) == 0}
 		execSimplify(r, e)
 		w.emit(e)
